@@ -10,6 +10,7 @@ import (
 	"regexp"
 	"sort"
 	"strings"
+	"sync"
 	"time"
 
 	"github.com/taskctl/taskctl/pkg/verifhooks"
@@ -528,7 +529,29 @@ func runC16(col *Collector, tier string, seed int64) {
 		delete(t0, "condition")
 		jobs = append(jobs, job{w, tasks, pipes, "weak-typing", i%2 == 0})
 	}
+	// strings that mean something to one of the three syntaxes: a value ending in a backslash, // and /* */ and #
+	// inside commands, URLs and glob patterns, quotes of both kinds, = and [ ] - early and late in the document
+	hazards := map[string]interface{}{
+		"tasks": map[string]interface{}{
+			"a1": map[string]interface{}{"command": []interface{}{"echo one"}, "env": map[string]interface{}{"WINPATH": "C:\\dir\\"}, "description": "ends with a backslash \\"},
+			"b2": map[string]interface{}{"command": []interface{}{"echo http://example.com//x '# not a comment'", "echo 'src/**/*.go' '/* not a comment */' \"[x]=y\""}, "description": "has // and /* */ and # and \" and '"},
+			"c3": map[string]interface{}{"command": []interface{}{"echo {{ .Glob }} {{ .Url }}"}, "variables": map[string]interface{}{"Glob": "src/**/*.go", "Url": "https://h/p?q=1#frag", "Tail": "x\\"}},
+		},
+		"pipelines": map[string]interface{}{"p": []interface{}{map[string]interface{}{"task": "a1"}, map[string]interface{}{"task": "b2", "depends_on": []interface{}{"a1"}}, map[string]interface{}{"task": "c3", "depends_on": []interface{}{"b2"}}}},
+		"watchers":  map[string]interface{}{"w": map[string]interface{}{"task": "c3", "watch": []interface{}{"src/**/*.go", "//odd/*/path"}}},
+		"variables": map[string]interface{}{"Trailing": "ends\\", "Comment": "a // b /* c */ # d"},
+	}
+	jobs = append(jobs, job{hazards, []string{"a1", "b2", "c3"}, []string{"p"}, "string-hazards", true})
 	parallel(len(jobs), 8, func(i int) { fmtCase(col, jobs[i].cfg, jobs[i].tasks, jobs[i].pipes, jobs[i].tag, jobs[i].run) })
+	for _, fa := range formats {
+		for _, f1 := range formats {
+			for _, f2 := range formats {
+				for _, f3 := range formats {
+					tripleImportCase(col, fa, f1, f2, f3)
+				}
+			}
+		}
+	}
 	sharedListsCrossImportCases(col)
 	unifyModelCases(col, rng, map[bool]int{false: 60, true: 600}[tier == "thorough"])
 	rootInImportedDirCases(col)
@@ -623,5 +646,50 @@ func multiImportCase(col *Collector, fa, fb, fc string, swap bool) {
 		}
 	}
 	cs.Impl = fmt.Sprintf("exit=%d", r.exit)
+	col.Add(cs)
+}
+
+// a main file importing three files, the second and the third of which define the SAME task (the third extends what the
+// second says): whatever the four formats, the same definitions load as from four YAML files
+var tripleRef struct {
+	once sync.Once
+	out  string
+}
+
+func tripleImportRun(fa, f1, f2, f3 string) (string, cliResult) {
+	dir := newScratchDir("c16t")
+	defer os.RemoveAll(dir)
+	docs := []map[string]interface{}{
+		{"import": []interface{}{"one." + f1, "two." + f2, "three." + f3}, "tasks": map[string]interface{}{"tmain": map[string]interface{}{"command": []interface{}{"echo main"}}}},
+		{"tasks": map[string]interface{}{"t1": map[string]interface{}{"command": []interface{}{"echo one"}}}, "variables": map[string]interface{}{"From1": "yes"}},
+		{"tasks": map[string]interface{}{"shared": map[string]interface{}{"command": []interface{}{"echo shared $A $B"}, "env": map[string]interface{}{"A": "from-two"}}}},
+		{"tasks": map[string]interface{}{"shared": map[string]interface{}{"env": map[string]interface{}{"B": "from-three"}, "description": "extended by the third import"}}},
+	}
+	for i, name := range []string{"main." + fa, "one." + f1, "two." + f2, "three." + f3} {
+		text, _ := serialise(docs[i], strings.TrimPrefix(filepath.Ext(name), "."))
+		os.WriteFile(filepath.Join(dir, name), []byte(text), 0644)
+	}
+	cfgPath := filepath.Join(dir, "main."+fa)
+	r := runTaskctl(dir, nil, 15*time.Second, "-c", cfgPath, "list")
+	out := fmt.Sprintf("list exit=%d\n%s\n", r.exit, r.stdout)
+	if r.exit == 0 {
+		r2 := runTaskctl(dir, nil, 15*time.Second, "-c", cfgPath, "show", "shared")
+		r3 := runTaskctl(dir, nil, 15*time.Second, "-c", cfgPath, "--output", "raw", "-q", "shared")
+		out += fmt.Sprintf("show exit=%d\n%s\nrun exit=%d\n%s\n", r2.exit, r2.stdout, r3.exit, r3.stdout)
+	}
+	return out, r
+}
+
+func tripleImportCase(col *Collector, fa, f1, f2, f3 string) {
+	tripleRef.once.Do(func() { tripleRef.out, _ = tripleImportRun("yaml", "yaml", "yaml", "yaml") })
+	out, r := tripleImportRun(fa, f1, f2, f3)
+	cs := Case{Tags: []string{"triple-import"}, NonTrivial: true, Replay: fmt.Sprintf("main.%s imports [one.%s, two.%s, three.%s]; two and three define the same task", fa, f1, f2, f3)}
+	cs.Impl = fmt.Sprintf("exit=%d", r.exit)
+	switch {
+	case r.panicked || r.timedOut || (r.exit != 0 && r.exit != 1):
+		cs.Fail, cs.Sig = fmt.Sprintf("loading crashed: %s", clipStr(firstPanicLine(r.stderr), 200)), "c16-cross-import"
+	case out != tripleRef.out:
+		cs.Fail, cs.Sig = fmt.Sprintf("list / show / run differ from what the four YAML files give: %s %s", firstDiff(tripleRef.out, out), lastLines(r.stderr, 1)), "c16-cross-import"
+	}
 	col.Add(cs)
 }
